@@ -12,11 +12,8 @@ from typing import Tuple, Union, List, cast
 # Type alias for 3D vectors - can be list or tuple
 Vec3 = Union[List[float], Tuple[float, float, float]]
 
-# Pre-allocated temporary vectors for performance (like TypeScript gl-matrix)
-midpointAB = [0.0, 0.0, 0.0]
-crossCD = [0.0, 0.0, 0.0]
-scaledA = [0.0, 0.0, 0.0]
-scaledB = [0.0, 0.0, 0.0]
+# Temporary vectors are created per call: module-level scratch vectors (as in TypeScript
+# gl-matrix) are shared between threads and corrupt results when calls interleave
 
 def create() -> List[float]:
     """
@@ -315,7 +312,7 @@ def tripleProduct(a: Vec3, b: Vec3, c: Vec3) -> float:
         scalar result a · (b × c)
     """
     # Compute cross product b × c using global temp vector
-    cross(crossCD, b, c)
+    crossCD = cross(create(), b, c)
     # Return dot product a · (b × c)
     return dot(a, crossCD)
 
@@ -344,7 +341,7 @@ def vectorDifference(A: "Cartesian", B: "Cartesian") -> float:
     # ⇒ sqrt(1 - cos(x)) = sqrt(2) * sin(x/2) 
     # Angle x/2 can be obtained as the angle between A and the normalized midpoint of A and B
     # ⇒ sin(x/2) = |cross(A, midpointAB)|
-    lerp(midpointAB, A, B, 0.5)
+    midpointAB = lerp(create(), A, B, 0.5)
     normalize(midpointAB, midpointAB)
     cross(midpointAB, A, midpointAB)
     D = length(midpointAB)
@@ -352,7 +349,7 @@ def vectorDifference(A: "Cartesian", B: "Cartesian") -> float:
     # Math.sin(x) = x for x < 1e-8
     if D < 1e-8:
         # When A and B are close or equal sin(x/2) ≈ x/2, just take the half-distance between A and B
-        subtract(crossCD, A, B)
+        crossCD = subtract(create(), A, B)
         half_distance = 0.5 * length(crossCD)
         return half_distance
     return D
@@ -368,11 +365,11 @@ def quadrupleProduct(out: Vec3, A: "Cartesian", B: "Cartesian", C: "Cartesian", 
     Returns:
         out
     """
-    cross(crossCD, C, D)
+    crossCD = cross(create(), C, D)
     triple_product_acd = dot(A, crossCD)
     triple_product_bcd = dot(B, crossCD)
-    scale(scaledA, A, triple_product_bcd)
-    scale(scaledB, B, triple_product_acd)
+    scaledA = scale(create(), A, triple_product_bcd)
+    scaledB = scale(create(), B, triple_product_acd)
     return subtract(out, scaledB, scaledA)
 
 def slerp(out: Vec3, A: "Cartesian", B: "Cartesian", t: float) -> "Cartesian":
@@ -394,7 +391,7 @@ def slerp(out: Vec3, A: "Cartesian", B: "Cartesian", t: float) -> "Cartesian":
     
     weight_a = math.sin((1 - t) * gamma) / math.sin(gamma)
     weight_b = math.sin(t * gamma) / math.sin(gamma)
-    scale(scaledA, A, weight_a)
-    scale(scaledB, B, weight_b)
+    scaledA = scale(create(), A, weight_a)
+    scaledB = scale(create(), B, weight_b)
     add(out, scaledA, scaledB)
     return cast("Cartesian", (out[0], out[1], out[2]))
